@@ -17,7 +17,7 @@ var modelKeys = []string{
 	"(primitives.*).Equal", "(primitives.*).String", "(primitives.*).KeyForMap",
 	"bytes.Equal", "errors.New", "errors.Errorf", "fmt.Errorf", "errors.Wrap", "errors.Wrapf",
 	"fmt.Sprintf", "fmt.Sprint", "iface:error.Error", "strings.Join",
-	"iface:context.Context.Err", "iface:context.Context.Done", "context.WithCancel", "context.Background", "context.TODO",
+	"iface:context.Context.Err", "iface:context.Context.Done", "context.WithCancel", "context.WithTimeout", "context.WithDeadline", "context.WithoutCancel", "context.WithValue", "context.Background", "context.TODO",
 	"sort.Slice", "math.Floor", "math.IsNaN", "math.IsInf", "math.Pow", "math.Ceil", "math.Trunc", "math.Round", "math.Abs", "math.Sqrt", "math.Max", "math.Min", "math.Log2", "math.Exp2", "math.Ldexp", "time.AfterFunc", "(*time.Timer).Stop", "(time.Duration).Nanoseconds",
 	"runtime.NumGoroutine", "time.Now", "(time.Time).Sub",
 }
@@ -211,6 +211,8 @@ func (f *Frame) modelCallFull(key string, sig *types.Signature, vals []Val, args
 		vc.declareFun("ctx_done", []Sort{SIface}, SInt)
 		rc := f.getCell(f.cur, "ghost:recvd", "(Array Int Bool)")
 		vc.assume(implies(sx("select", rc, sx("ctx_done", vals[0].t)), sx("distinct", sx("i_typ", r.t), "0")))
+		// ... and Err() is monotone: having observed a non-nil error is having observed that the context is done
+		f.setCell(f.cur, "ghost:recvd", "(Array Int Bool)", sx("store", rc, sx("ctx_done", vals[0].t), or(sx("select", rc, sx("ctx_done", vals[0].t)), sx("distinct", sx("i_typ", r.t), "0"))))
 		// a context that is hypothesised to stay live (C11 acceptance conditions) reports no error
 		vc.P.needSym["StaysLive"] = true
 		vc.assume(implies(sx("StaysLive", vals[0].t), eq(sx("i_typ", r.t), "0")))
@@ -240,6 +242,34 @@ func (f *Frame) modelCallFull(key string, sig *types.Signature, vals []Val, args
 		}
 		vc.ctxs = append(vc.ctxs, ctx)
 		return Tuple{Val{ctx, SIface, resT(0)}, cancel}, true
+	case "context.WithTimeout", "context.WithDeadline":
+		// A-STD: a fresh child of the parent that additionally ends on its own; cancel function as for WithCancel
+		vc.used["A-STD"] = true
+		ctx := vc.fresh("childctx", SIface)
+		vc.assume(sx("distinct", sx("i_typ", ctx), "0"))
+		vc.assume(eq(sx("ctx_parent", ctx), vals[0].t))
+		cancel := f.newRef("cancelfn", resT(1))
+		vc.assume(eq(sx("cancel_of", ctx), cancel.t))
+		for _, o := range vc.ctxs {
+			vc.assume(sx("distinct", ctx, o))
+		}
+		vc.ctxs = append(vc.ctxs, ctx)
+		return Tuple{Val{ctx, SIface, resT(0)}, cancel}, true
+	case "context.WithoutCancel", "context.WithValue":
+		// A-STD: a fresh context; WithoutCancel's result is NOT a child of its argument (it is never cancelled with it),
+		// so nothing relates the two; WithValue's result is a child
+		vc.used["A-STD"] = true
+		ctx := vc.fresh("derivedctx", SIface)
+		vc.assume(sx("distinct", sx("i_typ", ctx), "0"))
+		if key == "context.WithValue" {
+			vc.assume(eq(sx("ctx_parent", ctx), vals[0].t))
+		}
+		for _, o := range vc.ctxs {
+			vc.assume(sx("distinct", ctx, o))
+		}
+		vc.assume(sx("distinct", ctx, vals[0].t))
+		vc.ctxs = append(vc.ctxs, ctx)
+		return Val{ctx, SIface, resT(0)}, true
 	case "time.AfterFunc":
 		// A-STD: returns a fresh timer that will run the function once after the delay (ghost: its delay and function)
 		vc.used["A-STD"] = true
